@@ -6,6 +6,7 @@ import (
 	"io"
 	"net"
 
+	"github.com/jackc/pgx/v5/pgtype"
 	"github.com/lib/pq/oid"
 )
 
@@ -521,6 +522,69 @@ func VerifH14r() {
 	}
 	vAssert("third-kept-row-is-the-third-tuple", is(kept[2], v2))
 	vReach("rows-kept-until-the-end-of-the-stream")
+}
+
+// ---------------------------------------------------------------------------
+// H14t — binary COPY values are decoded per THIS connection's type map (C14,
+// C15): two connections on one server, each of which registers a type of its
+// own under the same object id on the map it was handed (the first a text-like
+// type, the second a bytea-like one), run a binary COPY of one column of that
+// type, one after the other. Each handler gets the value decoded by its own
+// connection's codec: a string on the first, bytes on the second.
+// ---------------------------------------------------------------------------
+func VerifH14t() {
+	const custom = 100001
+	val := nondetBytes(1)
+	mw := SessionMiddleware(func(ctx context.Context) (context.Context, error) {
+		if RemoteAddress(ctx).(vAddr).id == 0 {
+			TypeMap(ctx).RegisterType(&pgtype.Type{Name: "tenant_type", OID: custom, Codec: pgtype.TextCodec{}})
+		} else {
+			TypeMap(ctx).RegisterType(&pgtype.Type{Name: "tenant_type", OID: custom, Codec: pgtype.ByteaCodec{}})
+		}
+		return ctx, nil
+	})
+	var got [2]any
+	var errs [2]error
+	stmt := func(ctx context.Context, dw DataWriter, params []Parameter) error {
+		id := RemoteAddress(ctx).(vAddr).id
+		cr, err := dw.CopyIn(BinaryFormat)
+		if err != nil {
+			return err
+		}
+		br, err := NewBinaryColumnReader(ctx, cr)
+		if err != nil {
+			errs[id] = err
+			return err
+		}
+		row, err := br.Read(ctx)
+		if err != nil {
+			errs[id] = err
+			return err
+		}
+		got[id] = row[0]
+		if _, err := br.Read(ctx); err != io.EOF {
+			errs[id] = err
+			return err
+		}
+		return dw.Complete("COPY 1")
+	}
+	parse := func(ctx context.Context, query string) (PreparedStatements, error) {
+		return Prepared(NewStatement(stmt, WithColumns(Columns{{Name: "c", Oid: custom}}))), nil
+	}
+	srv, err := NewServer(parse, MessageBufferSize(128), mw)
+	vAssert("newserver-ok", err == nil)
+	stream := vCat(vCopyHeader, vU16(1), vU32(1), val, []byte{0xff, 0xff})
+	traffic := vCat(vStartup(vKV([]byte("user"), []byte("u"))), vMsgBytes('Q', vCStr([]byte("copy"))), vMsgBytes('d', stream), vMsgBytes('c', nil), vMsgBytes('X', nil))
+	c1, c2 := vNewConn(traffic), vNewConn(traffic)
+	c2.id = 1
+	srv.serve(context.Background(), c1) //nolint
+	srv.serve(context.Background(), c2) //nolint
+	vAssert("both-copies-completed", errs[0] == nil && errs[1] == nil && vCount(vTypes(c1.out), 'C') == 1 && vCount(vTypes(c2.out), 'C') == 1)
+	s1, isStr := got[0].(string)
+	vAssert("first-connection-value-decoded-by-its-own-codec", isStr && vEqStr(s1, string(val)))
+	b2, isBytes := got[1].([]byte)
+	vAssert("second-connection-value-decoded-by-its-own-codec", isBytes && vEqBytes(b2, val))
+	vReach("same-object-id-registered-differently-on-two-connections")
 }
 
 // ---------------------------------------------------------------------------
